@@ -35,6 +35,11 @@ type StructSpec struct {
 	Fields      FieldGroup
 	Doc         string
 	Annotations Annotations
+
+	// linkScope is the scope the struct is being linked in. It is set only
+	// while Link is in progress so that a constant cast to this struct in
+	// the meantime can finish linking the fields it reads.
+	linkScope Scope
 }
 
 // compileStruct compiles a struct AST into a StructSpec.
@@ -83,7 +88,9 @@ func (s *StructSpec) Link(scope Scope) (TypeSpec, error) {
 		return s, nil
 	}
 
+	s.linkScope = scope
 	err := s.Fields.Link(scope)
+	s.linkScope = nil
 	return s, err
 }
 
